@@ -193,9 +193,24 @@ of the task function; `early = true` is the code's order (`_perform_rollbacks`, 
 commits), `early = false` the order in which the rollback is still pending when the task starts. -/
 
 /-- **At the moment a handle-writing task function is entered nothing is pending**: every state the scheduler
-rolled back for it is invalid for a fresh connection (and for the next process, should this one die). -/
-theorem task_start_rollback_durable (fixed : Bool) (d d' : DB) (f : HRef HT) (h : enterTask fixed true d f = .ok d') :
-    d'.ses = d'.dur := enterTask_early_durable fixed d d' f h
+rolled back for it — for each of the handle states among its arguments — is invalid for a fresh connection (and
+for the next process, should this one die). -/
+theorem task_start_rollback_durable (fixed : Bool) (d d' : DB) (fs : List (HRef HT)) (h : enterTask fixed true d fs = .ok d') :
+    d'.ses = d'.dur := enterTask_early_durable fixed d d' fs h
+
+/-- **Every handle-valued argument is rolled back**: when the task function is entered (code's order, repaired
+backend), for every handle state `f` among the job's arguments — also several states of one handle name — every
+state derived from `f` is invalid, durably. -/
+theorem task_start_all_arguments_rolled_back (d d' : DB) (fs : List (HRef HT)) (h : enterTask true true d fs = .ok d')
+    (f : HRef HT) (hf : f ∈ fs) (y : HT) (hy : Desc (d.ses.joined true f.name) f.hash y) :
+    d'.dur.isValid y = false := by
+  unfold enterTask at h
+  simp only [if_true] at h
+  cases hr : d.rollbackAll true fs with
+  | error e => simp [hr] at h
+  | ok s =>
+    simp [hr] at h; subst h
+    exact rollbackAll_invalidates fs d s hr f hf y hy
 
 /-- **No invalidated state is replayed, also across process deaths.**  After any history of executions, each of
 which either completes or is killed right after one of its tasks started writing, one more (complete) execution of
